@@ -56,15 +56,19 @@ TRUSTED = [
 ]
 RULE = (
     "table generator (2-7 columns of 12 type tokens, nullability, server defaults, rowid/named/composite/text/no PK, named+unnamed "
-    "UNIQUE/CHECK/FK incl. self-referential, plain+unique indexes, long table name) x row generator (NULL, quotes, Unicode, "
+    "UNIQUE/CHECK/FK incl. self-referential, plain+unique indexes, long table name; 35% of the tables have Boolean / Enum columns whose "
+    "schema type carries a named CHECK (create_constraint=True, name=...)) x row generator (NULL, quotes, Unicode, "
     "big ints, floats, blobs, off-type values) x 1-4 batch ops (add/drop/alter column incl. rename/type/nullable/default, "
-    "insert_before/after, add/drop unique/check/fk/pk, create/drop index; 8% naming something that does not exist) x "
+    "insert_before/after, add/drop unique/check/fk/pk, create/drop index; autogenerate-style alter_column / drop_column calls passing "
+    "existing_type=Boolean/Enum(create_constraint=True, name=...) for nullable / server_default / comment changes, renames and retypes; "
+    "8% naming something that does not exist) x "
     "recreate always/auto x reflected/copy_from.  Non-trivial = the batch completed, recreated the table and the table had >= 1 row; "
     "distinct by (op kinds, recreate, copy_from, column types, constraint counts)"
 )
 ASSUMPTIONS = [
     "SQLite only (pysqlite legacy transaction control); PRAGMA foreign_keys off (SQLite default)",
-    "not generated: partial_reordering, table_args/table_kwargs, type-bound Boolean/Enum constraints, functional indexes, comments, schemas, "
+    "not generated: partial_reordering, table_args/table_kwargs, copy_from tables whose Boolean/Enum *type object* generates the CHECK "
+    "(type-bound constraints; copy_from tables carry the same CHECK as an explicit named CheckConstraint), functional indexes, schemas, "
     "identifiers that need quoting (C14's subject)",
 ]
 
